@@ -10,6 +10,7 @@ import (
 	"golang.org/x/tools/go/ssa"
 
 	. "htcheck/internal/core"
+	"htcheck/internal/zone"
 )
 
 func init() { Registry["C09"] = c09 }
@@ -282,6 +283,30 @@ func c09(c *Ctx) {
 				}
 				nrl++
 				key := strings.Join(sv.Names, "/") + ": " + mname + " in " + shortFn(w.fn)
+				// a Read that is handed an empty buffer returns (0, nil) at once, whatever the state of the connection: a loop
+				// around it neither makes progress nor ever sees the error that would end it
+				if mname == "Read" {
+					var buf ssa.Value
+					if cc.IsInvoke() && len(cc.Args) == 1 {
+						buf = cc.Args[0]
+					} else if !cc.IsInvoke() && len(cc.Args) == 2 {
+						buf = cc.Args[1]
+					}
+					if buf != nil && isByteSlice(buf.Type()) {
+						pr := zone.New(w.fn)
+						if o, ok := pr.NonEmptyObligation(buf); ok {
+							good, why := pr.Prove(o, cv)
+							if !good && strings.HasPrefix(RelPkg(PkgOf(w.fn)), "services/ja3/crypto/tls") {
+								// the forked standard-library TLS record layer: block.readFromUntil reserves n bytes and loops only while
+								// len < n <= cap, an invariant across reserve() and the loop that the prover does not follow
+								c.Except("read-buffer-not-empty", key, p.InstrPos(cv), "forked crypto/tls record reader (unchanged from the Go standard library): reserve(n) makes cap >= n and the loop runs only while len < n, so the slice data[len:cap] is never empty")
+								good = true
+							} else {
+								c.Check(good, "read-buffer-not-empty", key, p.InstrPos(cv), "the buffer handed to Read has room for at least one byte", "the buffer handed to this Read in a loop can be empty ("+why+"): Read then returns (0, nil) immediately and for ever – the loop spins at full speed, makes no progress and never sees the error of a closed or timed-out connection")
+							}
+						}
+					}
+				}
 				var errV ssa.Value
 				for _, ref := range *cv.Referrers() {
 					if ex, ok := ref.(*ssa.Extract); ok && ex.Index == tup.Len()-1 {
@@ -415,6 +440,23 @@ func c09(c *Ctx) {
 					}
 					return false
 				}})
+				// a listener opened for one connection must not wait for its peer for ever: SetDeadline on it in the opening
+				// function, or every Accept on it selected against a timer/ctx (not the case anywhere today)
+				hasDeadline := false
+				for _, c2 := range Calls(fn) {
+					cc := c2.Common()
+					name := ""
+					var recv ssa.Value
+					if cc.IsInvoke() {
+						name, recv = cc.Method.Name(), cc.Value
+					} else if f2 := cc.StaticCallee(); f2 != nil && f2.Signature.Recv() != nil && len(cc.Args) > 0 {
+						name, recv = f2.Name(), cc.Args[0]
+					}
+					if name == "SetDeadline" && recv != nil && lv[recv] {
+						hasDeadline = true
+					}
+				}
+				c.Check(hasDeadline, "listener-accept-bounded", key, p.InstrPos(call), "the listener is given a deadline before anyone accepts on it", "a listening socket opened on behalf of the connection accepts without any deadline: when the peer never connects to it, the accept goroutine and every command that waits for the data connection stay parked for ever – also after the client has gone, so the handler never returns and the socket is never released")
 				closed := false
 				stored := false
 				fnsToScan := append([]*ssa.Function{fn}, Anon(fn)...)
@@ -511,6 +553,9 @@ func c09(c *Ctx) {
 	}
 	c09LockRelease(c)
 	c09DecodeLoops(c)
+	c09OwnerCloseReleasesAll(c)
+	c09DataSocketReplaced(c)
+	c09OwnerCloseDeferred(c)
 }
 
 // exitChannelsOf: channels whose closed/receive arm guards the return r (range over chan exhausted, v,ok := <-ch with !ok,
